@@ -132,3 +132,16 @@ CHECK["suites"].append(dict(CHECK["suites"][0], name="srvw", impl_bin="impl_srvt
                                   "octet; the response's wall-clock fields (TSIG time signed / BADTIME server time) are normalised to the "
                                   "model's clock 0 by impl_srvt when they lie between the clock readings around handle_message; "
                                   "hmac is symbolic in the model runner (see ocaml/run_srvw.ml)")))
+
+
+
+# ---- third suite (pkg-signed): CORRECTLY SIGNED queries over both transports as a no-panic stream. Query answering for a request
+# whose TSIG verified is a PARAMETER of c01_no_panic (see level_note), and no suite above ever sends a request whose signature
+# verifies; here the real server runs those paths (verified TSIG, answering, truncation / clear_rrs, TSIG RR that does not fit).
+# No model column (no model of TSIG-bearing octets): the only requirement is two responses and never a panic / timeout / bad line.
+import siggen
+CHECK["suites"].append(dict(siggen.suite(siggen.oracle_c01),
+                            gen=lambda rng, tier: siggen.gen(rng, tier, *((400, 5, 400, 8) if tier == "quick" else (15000, 100, 10000, 200)))))
+MANIFEST["level_note"] += (" Suite `signed` (oracle-free, no model): correctly signed queries incl. stale-time (BADTIME) ones around the "
+                           "size limits, both transports; requirement: two responses, never a panic.")
+
